@@ -126,26 +126,6 @@ Definition bad_stopb (x4 : list byte) : bool :=
 (* the message with its last four octets replaced by x4 *)
 Definition replace_stop (b x4 : list byte) : list byte := firstn (length b - 4) b ++ x4.
 
-(* an item and, if damaged, what its stop signature is overwritten with *)
-Definition dmg_item := (enc_item * option (list byte))%type.
-Definition dmg_bytes (it : dmg_item) : list byte :=
-  match snd it with
-  | None => item_bytes (fst it)
-  | Some x4 => replace_stop (item_bytes (fst it)) x4
-  end.
-Definition undamaged (it : dmg_item) : bool := match snd it with None => true | Some _ => false end.
-Definition dmg_stream (items : list dmg_item) : list (list byte * list byte) :=
-  map (fun it => (dmg_bytes it, snd (fst it))) items.
-
-(* an undamaged item is as in C11 (mode io); a damaged one is a well-formed
-   encoded message (any data category) with a bad stop signature *)
-Definition dmg_okb (dd : list (pname * pvalue) -> reader -> result (bits * reader)) (io : bool)
-    (it : dmg_item) : bool :=
-  match snd it with
-  | None => item_okb dd io (fst it)
-  | Some x4 => item_okb dd true (fst it) && bad_stopb x4
-  end.
-
 Definition ends_7777b (s : list byte) : bool := bytes_eqb (skipn (length s - 4) s) sig_7777.
 
 Lemma filter_map {A B} (f : A -> B) (g : B -> bool) l : filter g (map f l) = map f (filter (fun x => g (f x)) l).
@@ -205,90 +185,6 @@ Proof.
   exists (MsgInfo (length (m_bytes mi)) L (meta_of view mi)). split; [|cbn [mi_declared]; lia].
   intros t. unfold frame_process. rewrite <- app_assoc. fold L in Hcut. rewrite (Hcut (x4 ++ t)). cbn [bind].
   unfold msginfo_of. rewrite Hlen. f_equal. f_equal. lia.
-Qed.
-
-Lemma item_okb_true_of io it : item_okb dd io it = true -> item_okb dd true it = true.
-Proof.
-  unfold item_okb. intros H. apply andb_true_iff in H as [H ->]. destruct (item_msg it); [|discriminate].
-  apply andb_true_iff in H as [-> _]. reflexivity.
-Qed.
-
-Lemma dmg_item_hyps io it : dmg_okb dd io it = true ->
-  starts_sig (dmg_bytes it) /\ nosig (snd (fst it)) /\ ends_7777b (dmg_bytes it) = undamaged it /\
-  if undamaged it
-  then valid_msg (frame_process dd view false) (frame_process dd view true) (frame_hook tdp) io (dmg_bytes it)
-  else full_fails (frame_process dd view false) (dmg_bytes it) ELib /\
-       info_ok (frame_process dd view true) (dmg_bytes it).
-Proof.
-  destruct it as [it [x4|]]; unfold dmg_okb, dmg_bytes, undamaged; cbn [fst snd].
-  - intros H. apply andb_true_iff in H as [Hit Hbad].
-    pose proof Hit as Hit'. unfold item_okb in Hit'. apply andb_true_iff in Hit' as [Hm Hsep].
-    unfold item_bytes. destruct (item_msg it) as [m|] eqn:Em; [|discriminate]. apply andb_true_iff in Hm as [Hwf _].
-    destruct (damaged_stop_hyps _ _ _ _ Em Hwf Hbad) as (H1 & _ & H3 & H4 & H5).
-    split; [exact H1|]. split; [apply nosigb_sound, Hsep|]. split; [exact H3|]. split; assumption.
-  - intros Hit. destruct (item_ok_valid dd dd_prefix dd_suffix dd_cuts view tdp io it Hit) as (H1 & H2 & H3).
-    split; [exact H1|]. split; [exact H2|]. split; [|exact H3].
-    unfold item_okb in Hit. apply andb_true_iff in Hit as [Hm _]. unfold item_bytes.
-    destruct (item_msg it) as [m|] eqn:Em; [|discriminate]. apply andb_true_iff in Hm as [Hwf _].
-    destruct (msg_wfb_sound dd dd_prefix dd_suffix _ Hwf) as (Hfits & _).
-    unfold ends_7777b. rewrite (encoded_ends_7777 _ _ _ Em Hfits). reflexivity.
-Qed.
-
-Lemma filter_good_dmg io items : forallb (dmg_okb dd io) items = true ->
-  filter ends_7777b (map fst (dmg_stream items)) = map dmg_bytes (filter undamaged items).
-Proof.
-  intros Hall. unfold dmg_stream. rewrite map_map. cbn [fst]. rewrite filter_map. f_equal.
-  apply filter_ext_in'. intros it Hin. rewrite forallb_forall in Hall.
-  destruct (dmg_item_hyps io it (Hall it Hin)) as (_ & _ & H & _). exact H.
-Qed.
-
-(* C12 end to end, continue_on_error: every message whose stop signature was
-   overwritten is skipped exactly; all others are delivered unchanged, in order *)
-Theorem e2e_continue_skips_damaged : forall sep0 items,
-  nosigb sep0 = true -> forallb (dmg_okb dd false) items = true ->
-  frame_generate dd view tdp filt false true false (sep0 ++ assemble (dmg_stream items))
-  = (map dmg_bytes (filter undamaged items), None).
-Proof.
-  intros sep0 items H0 Hall. unfold frame_generate.
-  rewrite (scan_continue_skips _ _ _ _ ends_7777b); [rewrite (filter_good_dmg false items Hall); reflexivity|apply nosigb_sound, H0|].
-  unfold stream_ok, dmg_stream. rewrite Forall_map. apply Forall_forall. intros it Hin.
-  rewrite forallb_forall in Hall. cbn [fst snd].
-  destruct (dmg_item_hyps false it (Hall it Hin)) as (H1 & H2 & H3 & H4).
-  split; [exact H1|]. split; [exact H2|]. rewrite H3. destruct (undamaged it); [exact H4|].
-  destruct H4 as [Hf Hi]. split; [exists ELib; split; [reflexivity|exact Hf]|exact Hi].
-Qed.
-
-(* ... without continue_on_error: the messages before it are delivered, then the
-   library's error surfaces; nothing is assumed about what follows *)
-Theorem e2e_stops_at_damaged : forall sep0 items it x4 rest,
-  nosigb sep0 = true -> forallb (item_okb dd false) items = true ->
-  item_okb dd true it = true -> bad_stopb x4 = true ->
-  frame_generate dd view tdp filt false false false
-    (sep0 ++ assemble (stream_of items) ++ replace_stop (item_bytes it) x4 ++ rest)
-  = (map item_bytes items, Some ELib).
-Proof.
-  intros sep0 items it x4 rest H0 Hall Hit Hbad. unfold frame_generate.
-  destruct (dmg_item_hyps false (it, Some x4)) as (H1 & _ & _ & H4).
-  { unfold dmg_okb. cbn [fst snd]. rewrite Hit, Hbad. reflexivity. }
-  unfold dmg_bytes, undamaged in *. cbn [fst snd] in *. destruct H4 as [Hf _].
-  rewrite (scan_stops_at_library_error _ _ _ _ false sep0 (stream_of items) _ rest ELib);
-    [rewrite map_fst_stream_of; reflexivity|apply nosigb_sound, H0| |exact H1|exact Hf|reflexivity].
-  eapply stream_ok_of; [|exact Hall]. apply (item_ok_valid dd dd_prefix dd_suffix dd_cuts view tdp false).
-Qed.
-
-(* recorded: metadata-only mode never reads section 5, so this damage is not
-   detected there — the stream scans as if it were intact *)
-Theorem e2e_info_mode_ignores_stop_signature : forall coe sep0 items,
-  nosigb sep0 = true -> forallb (dmg_okb dd true) items = true ->
-  frame_generate dd view tdp filt true coe false (sep0 ++ assemble (dmg_stream items))
-  = (map dmg_bytes items, None).
-Proof.
-  intros coe sep0 items H0 Hall. unfold frame_generate.
-  rewrite scan_exact; [unfold dmg_stream; rewrite map_map; reflexivity|apply nosigb_sound, H0|].
-  unfold stream_ok, dmg_stream. rewrite Forall_map. apply Forall_forall. intros it Hin.
-  rewrite forallb_forall in Hall. cbn [fst snd].
-  destruct (dmg_item_hyps true it (Hall it Hin)) as (H1 & H2 & _ & H4).
-  split; [exact H1|]. split; [exact H2|]. destruct (undamaged it); [exact H4|]. cbn [valid_msg]. apply H4.
 Qed.
 
 End DamageEndToEnd.
